@@ -48,46 +48,71 @@ Definition dec_found (s : sx) : option (rec * N) :=
 
 Inductive cmd := CStep (o : op) (touch : list N) | CFind (target : N) (n : nat) (pl : bool).
 
+Definition dec_args (tag : N) (args : list sx) : option cmd :=
+  if tag =? 0 then
+    match args with [] => Some (CStep OInitDone []) | _ => None end
+  else if tag =? 1 then
+    match args with
+    | [id; ipx; udp; seq; tok; inb; fl] =>
+        match dec_rec id ipx udp seq, sx_N tok, sx_bool inb, sx_bool fl with
+        | Some r, Some k, Some i, Some f => Some (CStep (OAdd r k i f) [r_id r])
+        | _, _, _, _ => None
+        end
+    | _ => None
+    end
+  else if tag =? 2 then
+    match args with
+    | [id; rnd] =>
+        match sx_N id, sx_N rnd with
+        | Some i, Some r => if id_ok i then Some (CStep (ODelete i r) [i]) else None
+        | _, _ => None
+        end
+    | _ => None
+    end
+  else if tag =? 3 then
+    match args with
+    | [tok; hint; resp; nrs; rnd] =>
+        match sx_N tok, sx_N hint, sx_bool resp, sx_list nrs, sx_N rnd with
+        | Some k, Some h, Some rs, Some nr, Some r =>
+            if id_ok h then
+              match nr with
+              | [] => Some (CStep (OReval k rs None r) [h])
+              | [id; ipx; udp; seq] =>
+                  match dec_rec id ipx udp seq with
+                  | Some x => Some (CStep (OReval k rs (Some x) r) [h])
+                  | None => None
+                  end
+              | _ => None
+              end
+            else None
+        | _, _, _, _, _ => None
+        end
+    | _ => None
+    end
+  else if tag =? 4 then
+    match args with
+    | [id; succ; prior; founds; rnd] =>
+        match sx_N id, sx_bool succ, sx_N prior, sx_list_of dec_found founds, sx_N rnd with
+        | Some i, Some sc, Some p, Some f, Some r =>
+            if id_ok i then Some (CStep (OTrack i sc p f r) (i :: map (fun x => r_id (fst x)) f)) else None
+        | _, _, _, _, _ => None
+        end
+    | _ => None
+    end
+  else if tag =? 5 then
+    match args with
+    | [target; n; pl] =>
+        match sx_N target, sx_nat n, sx_bool pl with
+        | Some tg, Some k, Some p => if id_ok tg && (N.of_nat k <? 1000) then Some (CFind tg k p) else None
+        | _, _, _ => None
+        end
+    | _ => None
+    end
+  else None.
+
 Definition dec_cmd (s : sx) : option cmd :=
   match s with
-  | SL [SI 0%Z] => Some (CStep OInitDone [])
-  | SL [SI 1%Z; id; ipx; udp; seq; tok; inb; fl] =>
-      match dec_rec id ipx udp seq, sx_N tok, sx_bool inb, sx_bool fl with
-      | Some r, Some k, Some i, Some f => Some (CStep (OAdd r k i f) [r_id r])
-      | _, _, _, _ => None
-      end
-  | SL [SI 2%Z; id; rnd] =>
-      match sx_N id, sx_N rnd with
-      | Some i, Some r => if id_ok i then Some (CStep (ODelete i r) [i]) else None
-      | _, _ => None
-      end
-  | SL [SI 3%Z; tok; hint; resp; SL nr; rnd] =>
-      match sx_N tok, sx_N hint, sx_bool resp, sx_N rnd with
-      | Some k, Some h, Some rs, Some r =>
-          if id_ok h then
-            match nr with
-            | [] => Some (CStep (OReval k rs None r) [h])
-            | [id; ipx; udp; seq] =>
-                match dec_rec id ipx udp seq with
-                | Some x => Some (CStep (OReval k rs (Some x) r) [h])
-                | None => None
-                end
-            | _ => None
-            end
-          else None
-      | _, _, _, _ => None
-      end
-  | SL [SI 4%Z; id; succ; prior; SL found; rnd] =>
-      match sx_N id, sx_bool succ, sx_N prior, opt_map dec_found found, sx_N rnd with
-      | Some i, Some sc, Some p, Some f, Some r =>
-          if id_ok i then Some (CStep (OTrack i sc p f r) (i :: map (fun x => r_id (fst x)) f)) else None
-      | _, _, _, _, _ => None
-      end
-  | SL [SI 5%Z; target; n; pl] =>
-      match sx_N target, sx_nat n, sx_bool pl with
-      | Some tg, Some k, Some p => if id_ok tg && (N.of_nat k <? 1000) then Some (CFind tg k p) else None
-      | _, _, _ => None
-      end
+  | SL (t :: args) => match sx_N t with Some tag => dec_args tag args | None => None end
   | _ => None
   end.
 
